@@ -2492,6 +2492,7 @@ namespace reflect { \
         using value_type = std::shared_ptr<BaseClass>; \
         using result_type = conversion_result<value_type>; \
         static bool is(const Json& ajson) noexcept { \
+            if (ajson.is_null()) return true; \
             if (!ajson.is_object()) return false; \
             JSONCONS_VARIADIC_FOR_EACH(JSONCONS_POLYMORPHIC_IS, BaseClass,,, __VA_ARGS__)\
             return false; \
@@ -2499,6 +2500,7 @@ namespace reflect { \
 \
         template <typename Alloc,typename TempAlloc> \
         static result_type try_as(const allocator_set<Alloc,TempAlloc>& aset, const Json& ajson) { \
+            if (ajson.is_null()) return result_type(value_type()); \
             if (!ajson.is_object()) return result_type(jsoncons::unexpect, conv_errc::not_map); \
             JSONCONS_VARIADIC_FOR_EACH(JSONCONS_POLYMORPHIC_AS_SHARED_PTR, BaseClass,,, __VA_ARGS__)\
             return result_type(jsoncons::unexpect, conv_errc::conversion_failed); \
@@ -2516,12 +2518,14 @@ namespace reflect { \
         using value_type = std::unique_ptr<BaseClass,Deleter>; \
         using result_type = conversion_result<value_type>; \
         static bool is(const Json& ajson) noexcept { \
+            if (ajson.is_null()) return true; \
             if (!ajson.is_object()) return false; \
             JSONCONS_VARIADIC_FOR_EACH(JSONCONS_POLYMORPHIC_IS, BaseClass,,, __VA_ARGS__)\
             return false; \
         } \
         template <typename Alloc,typename TempAlloc> \
         static result_type try_as(const allocator_set<Alloc,TempAlloc>& aset, const Json& ajson) { \
+            if (ajson.is_null()) return result_type(value_type()); \
             if (!ajson.is_object()) return result_type(jsoncons::unexpect, conv_errc::not_map); \
             JSONCONS_VARIADIC_FOR_EACH(JSONCONS_POLYMORPHIC_AS_UNIQUE_PTR, BaseClass,,, __VA_ARGS__)\
             return result_type(jsoncons::unexpect, conv_errc::conversion_failed); \
